@@ -287,6 +287,11 @@ func (r *Run) Finish(cov map[string]any, assumptions []string) int {
 		}
 	}
 	cov["known_findings_observed"] = kfObserved
+	if l, ok := cov["samples"].([]any); !ok || len(l) == 0 {
+		// evidence must show at least one explored case
+		cov["samples"] = []any{map[string]any{"note": "no sample recorded by this run"}}
+		r.Inconcl = append(r.Inconcl, "the run recorded no sample case")
+	}
 	if len(r.Notes) > 0 {
 		cov["notes"] = r.Notes
 	}
